@@ -138,6 +138,7 @@ pub struct Explorer {
     pub dir: String,
     pub counters: BTreeMap<String, u64>,
     pub images: u64,
+    pub skip_fsck: bool,
     n: u64,
 }
 
@@ -148,7 +149,7 @@ pub struct ImageVerdict {
 
 impl Explorer {
     pub fn new(pagesize: u64, dir: &str) -> Explorer {
-        Explorer { pagesize, dir: dir.to_string(), counters: BTreeMap::new(), images: 0, n: 0 }
+        Explorer { pagesize, dir: dir.to_string(), counters: BTreeMap::new(), images: 0, skip_fsck: false, n: 0 }
     }
     fn count(&mut self, k: &str) {
         *self.counters.entry(k.to_string()).or_default() += 1;
@@ -181,7 +182,7 @@ impl Explorer {
                 buf = &buf_owned;
             }
         }
-        let rep = fsck::check(buf, len, ps);
+        let rep = if self.skip_fsck { Err(String::new()) } else { fsck::check(buf, len, ps) };
         let opened = catch(|| OpenOptions::new().pagesize(ps).open(&path));
         let db = match opened {
             Ok(Ok(db)) => db,
@@ -222,6 +223,7 @@ impl Explorer {
             }
         };
         match rep {
+            Err(_) if self.skip_fsck => {}
             Err(e) => return Err(ImageVerdict { oracle: "crash-fsck", detail: format!("crash image does not parse: {}", e) }),
             Ok(r) => {
                 if let Some(e) = r.errors.first() {
